@@ -27,6 +27,18 @@ reg("C03",
                  "finish_subgraph, single_nested_graph_node and all runtime code are the repository's"],
     )
 
+reg("C03",
+    name="C03_native_gate", src="harness/C03_native_gate.cpp",
+    anchor_files=["src/hgraph/runtime/node.cpp", "include/hgraph/runtime/node.h", "include/hgraph/runtime/node_scheduler.h", "src/hgraph/runtime/graph.cpp"],
+    quick=dict(defs=dict(NEMIT=2, OMAX=2, GMAX=2, DMAX=4, RDMAX=2), symx=dict(shards=16, **{"max-wall": 900})),
+    thorough=dict(defs=dict(NEMIT=2, OMAX=3, GMAX=3, DMAX=6, RDMAX=3), symx=dict(shards=16, **{"max-wall": 3000, "shard-depth": 8})),
+    reach=["end", "notified_while_not_ready_then_wakeup_honoured", "wakeup_due_while_not_ready", "ran_after_wakeup_fired_unready", "ran_on_own_wakeup",
+           "passive_only_tick_while_ready", "second_request_from_run"],
+    bounds='a NATIVE-callback compute node (NodeBuilder::native; readiness decided by node.cpp ready_to_evaluate from valid_inputs={a,b}) with inputs a (active) and b (passive or active, enumerated), both required, and a NodeScheduler: one wake-up requested in start() at start+d0 (d0 symbolic in [1,DMAX] us) and one in the first run at now+rd (rd symbolic in [0,RDMAX], 0 = none); sources a and b each emit 0..NEMIT values (count enumerated): first at start+off (off symbolic in [0,OMAX]), later ones after symbolic gaps in [1,GMAX]; payloads symbolic in [-1000,1000]; run window OMAX+GMAX*(NEMIT-1)+DMAX+RDMAX+2 us',
+    outside='more emissions/requests; tagged requests and cancel operations on a native node (static-node versions: C03_gate variant 4, C18_sched_graph); all_valid_inputs and more than two inputs on a native node; native nodes inside nested graphs; real-time executor',
+    assumptions=["the native node is wired with Wiring::add_node over the un-named TSB {a,b} input schema (hk/hk_native.h), its sources and sink are static nodes"],
+    )
+
 META = dict(
     level="bounded symbolic model checking of the activation and readiness gates (node.cpp activate_input_slots / notify / ready_to_evaluate / evaluate_impl, "
           "static_node.h invoke_gated, graph.cpp schedule_node_impl / evaluate_impl, NodeBuilder::with_passive_inputs) on real wired graphs run by the simulation "
